@@ -109,11 +109,15 @@ Definition FPNum_neg (a : fpnum) : fpnum := FPNum4 (f_s a * -1) (f_e a) (f_m a) 
 Definition FPNum_abs (a : fpnum) : fpnum := FPNum4 1 (f_e a) (f_m a) (f_p a).
 Definition FPNum_div2 (a : fpnum) (n : Z) : fpnum := FPNum4 (f_s a) (f_e a) (f_m a) (py_shl (f_p a) n).
 
-(* compare: -1 / 0 / 1; 2 stands for `raise Exception()` (signs outside {1,-1}) *)
-Definition FPNum_compare (a0 b0 : fpnum) : Z :=
+(* compare: -1 / 0 / 1; 2 stands for `raise Exception()` (signs outside {1,-1}).
+   Two places of the code carry a recorded defect and a proposed one-line repair; which version the implementation runs is read
+   off by a probe, the model has both:
+     inf_fix  (fixes/C12-CMP-INF.diff):  two infinities of different sign: `return self.s` instead of `return 1`
+     zero_fix (fixes/C12-CMP-ZERO.diff): `if (a.m == 0 and b.m == 0): return 0` before the sign dispatch *)
+Definition FPNum_compare_with (inf_fix zero_fix : bool) (a0 b0 : fpnum) : Z :=
   if f_nan a0 || f_nan b0 then 0
   else if f_inf a0 && f_inf b0 && (f_s a0 =? f_s b0) then 0
-  else if f_inf a0 && f_inf b0 then 1
+  else if f_inf a0 && f_inf b0 then (if inf_fix then f_s a0 else 1)
   else if f_inf a0 then f_s a0
   else if f_inf b0 then - f_s b0
   else
@@ -121,11 +125,26 @@ Definition FPNum_compare (a0 b0 : fpnum) : Z :=
     let b := FPNum4 (f_s b0) (f_e b0) (f_m b0) (f_p b0) in
     let '(a, b) := align a b in
     let abs_cmp := if f_m a =? f_m b then 0 else if f_m a >? f_m b then 1 else -1 in
-    if (f_s a =? 1) && (f_s b =? 1) then abs_cmp
+    if zero_fix && (f_m a =? 0) && (f_m b =? 0) then 0
+    else if (f_s a =? 1) && (f_s b =? 1) then abs_cmp
     else if (f_s a =? -1) && (f_s b =? -1) then - abs_cmp
     else if (f_s a =? -1) && (f_s b =? 1) then -1
     else if (f_s a =? 1) && (f_s b =? -1) then 1
     else 2.
+Definition FPNum_compare : fpnum -> fpnum -> Z := FPNum_compare_with false false.      (* helper.py at the pinned commit *)
+
+(* reduceExponentPrecision(prec) AFTER the repair of the undefined name (fixes/C12-REDUCE-EXP.diff):
+     mask = (1 << prec) - 1; e_bias = mask >> 1
+     if e < -(e_bias-1): while e < -(e_bias-1): e += 1; p <<= 1        (closed form)
+     elif e + e_bias >= mask: infinity = True
+   (before the repair the elif raises NameError: nothing to model; the check skips this family then) *)
+Definition FPNum_reduceExponentPrecision (x : fpnum) (prec : Z) : fpnum :=
+  let mask := py_shl 1 prec - 1 in
+  let e_bias := py_shr mask 1 in
+  if f_e x <? - (e_bias - 1) then
+    mkfp (f_s x) (- (e_bias - 1)) (f_m x) (py_shl (f_p x) (- (e_bias - 1) - f_e x)) (f_inf x) (f_nan x)
+  else if f_e x + e_bias >=? mask then mkfp (f_s x) (f_e x) (f_m x) (f_p x) true (f_nan x)
+  else x.
 
 (* reducePrecision(prec): p = 1 << prec; while (p < self.p): self.p >>= 1; self.m >>= 1     (truncation) *)
 Fixpoint red_prec (fuel : nat) (m p0 p : Z) : Z * Z :=
